@@ -13,6 +13,10 @@ const ncBase = "urn:ietf:params:xml:ns:netconf:base:1.0"
 // XMLIssues collects clause-level observations about one edit-config document (C10).
 type XMLIssues struct {
 	Items []string // "clause: detail"
+	// Deleted lists the subtrees the document deletes explicitly (delete / remove / replace operations)
+	Deleted []Path
+	// KeyDelete: some key leaf element carries an explicit delete/remove operation
+	KeyDelete bool
 }
 
 func (x *XMLIssues) add(clause, format string, a ...any) {
@@ -108,7 +112,17 @@ func (c *xmlCtx) applyChildren(st DevState, p Path, n *Node, elems []*etree.Elem
 		}
 		if c.ns {
 			if got := resolveNS(e); got != cn.Namespace {
-				c.iss.add("C10.xml-namespace", "element %s below %s resolves to namespace %q, its schema node is in %q", e.Tag, p, got, cn.Namespace)
+				mark := ""
+				if o := e.SelectAttrValue("operation", ""); o == "delete" || o == "remove" {
+					mark = " [delete-element]"
+				} else {
+					for _, a := range e.Attr {
+						if a.Key == "operation" && (a.Value == "delete" || a.Value == "remove") {
+							mark = " [delete-element]"
+						}
+					}
+				}
+				c.iss.add("C10.xml-namespace", "element %s below %s resolves to namespace %q, its schema node is in %q%s", e.Tag, p, got, cn.Namespace, mark)
 			}
 		}
 		op := c.opOf(e)
@@ -127,9 +141,11 @@ func (c *xmlCtx) applyChildren(st DevState, p Path, n *Node, elems []*etree.Elem
 			switch eff {
 			case "delete", "remove":
 				st.Delete(cp)
+				c.iss.Deleted = append(c.iss.Deleted, cp.Clone())
 				continue
 			case "replace":
 				st.Delete(cp)
+				c.iss.Deleted = append(c.iss.Deleted, cp.Clone())
 				eff = "merge"
 			}
 			kids := e.ChildElements()
@@ -162,14 +178,19 @@ func (c *xmlCtx) applyChildren(st DevState, p Path, n *Node, elems []*etree.Elem
 			switch eff {
 			case "delete", "remove":
 				st.Delete(cp)
+				c.iss.Deleted = append(c.iss.Deleted, cp.Clone())
 				continue
 			case "replace":
 				st.Delete(cp)
+				c.iss.Deleted = append(c.iss.Deleted, cp.Clone())
 				eff = "merge"
 			}
 			c.applyChildren(st, cp, cn, kids, eff)
 		case KLeaf:
 			cp := p.Child(e.Tag)
+			if cn.IsKeyLeaf() && (op == "delete" || op == "remove") {
+				c.iss.KeyDelete = true
+			}
 			if eff == "delete" || eff == "remove" {
 				if cn.IsKeyLeaf() && op == "" {
 					// key leaf inside an entry that is being addressed; not a deletion of its own
